@@ -2938,7 +2938,10 @@ class _InitializeParams:
     capabilities: "ClientCapabilities" = attrs.field()
     """The capabilities provided by the client (editor or tool)"""
 
-    process_id: Optional[Union[int, None]] = attrs.field(default=None)
+    process_id: Optional[Union[int, None]] = attrs.field(
+        validator=attrs.validators.optional(validators.integer_validator),
+        default=None,
+    )
     """The process Id of the parent process that started
     the server.
     
@@ -3008,7 +3011,10 @@ class InitializeParams:
     capabilities: "ClientCapabilities" = attrs.field()
     """The capabilities provided by the client (editor or tool)"""
 
-    process_id: Optional[Union[int, None]] = attrs.field(default=None)
+    process_id: Optional[Union[int, None]] = attrs.field(
+        validator=attrs.validators.optional(validators.integer_validator),
+        default=None,
+    )
     """The process Id of the parent process that started
     the server.
     
@@ -3747,7 +3753,10 @@ class SignatureHelp:
     In future version of the protocol this property might become
     mandatory to better express this."""
 
-    active_parameter: Optional[Union[int, None]] = attrs.field(default=None)
+    active_parameter: Optional[Union[int, None]] = attrs.field(
+        validator=attrs.validators.optional(validators.uinteger_validator),
+        default=None,
+    )
     """The active parameter of the active signature.
     
     If `null`, no parameter of the signature is active (for example a named
@@ -6457,7 +6466,10 @@ class SignatureInformation:
     parameters: Optional[Sequence["ParameterInformation"]] = attrs.field(default=None)
     """The parameters of this signature."""
 
-    active_parameter: Optional[Union[int, None]] = attrs.field(default=None)
+    active_parameter: Optional[Union[int, None]] = attrs.field(
+        validator=attrs.validators.optional(validators.uinteger_validator),
+        default=None,
+    )
     """The index of the active parameter.
     
     If `null`, no parameter of the signature is active (for example a named
@@ -6643,7 +6655,10 @@ class OptionalVersionedTextDocumentIdentifier:
     uri: str = attrs.field(validator=attrs.validators.instance_of(str))
     """The text document's uri."""
 
-    version: Optional[Union[int, None]] = attrs.field(default=None)
+    version: Optional[Union[int, None]] = attrs.field(
+        validator=attrs.validators.optional(validators.integer_validator),
+        default=None,
+    )
     """The version number of this document. If a versioned text document identifier
     is sent from the server to the client and the file is not open in the editor
     (the server has not received an open notification before) the server can send
@@ -6783,7 +6798,10 @@ class WorkspaceFullDocumentDiagnosticReport:
     items: Sequence[Diagnostic] = attrs.field()
     """The actual items."""
 
-    version: Optional[Union[int, None]] = attrs.field(default=None)
+    version: Optional[Union[int, None]] = attrs.field(
+        validator=attrs.validators.optional(validators.integer_validator),
+        default=None,
+    )
     """The version number for which the diagnostics are reported.
     If the document is not marked as open `null` can be provided."""
 
@@ -6814,7 +6832,10 @@ class WorkspaceUnchangedDocumentDiagnosticReport:
     """A result id which will be sent on the next
     diagnostic request for the same document."""
 
-    version: Optional[Union[int, None]] = attrs.field(default=None)
+    version: Optional[Union[int, None]] = attrs.field(
+        validator=attrs.validators.optional(validators.integer_validator),
+        default=None,
+    )
     """The version number for which the diagnostics are reported.
     If the document is not marked as open `null` can be provided."""
 
